@@ -253,6 +253,11 @@ def monitor_script(prop_mod, script_text, builds, wd, res, shard_desc, timeout=6
     sp = os.path.join(wd, "script.txt")
     with open(sp, "w") as f:
         f.write(script_text)
+    keep = os.environ.get("VERIF_KEEP_SCRIPTS")   # coverage tooling: collect every generated script
+    if keep:
+        os.makedirs(keep, exist_ok=True)
+        with open(os.path.join(keep, "%s-%d-%d.txt" % (getattr(prop_mod, "ID", "X"), os.getpid(), abs(hash(script_text)) % 10**9)), "w") as f:
+            f.write(script_text)
     for bname in builds:
         binary = build(bname)
         lp = os.path.join(wd, "log-%s.txt" % bname)
